@@ -12,11 +12,17 @@ Class arrangement per run (fresh classes from factories):
     B,C one shared metaclass object
     D   custom hash function: first positional argument
     E   custom hash function: string of the sorted keyword names
+    F   instances that are falsy
+    G   metaclass derived from a generated one (mixed with ABCMeta); G1(G); H on
+        the generated base metaclass itself
+get_all_semi_singleton_instances is also held open as a suspended generator
+while other classes are worked with.
 Model: per class, key -> instance label, where key equality is Python equality
 of (args, json.dumps(kwargs, sort_keys=True)) for the default function and of
 the function's value for a custom one.
 """
 
+import abc
 import collections
 import json
 
@@ -26,7 +32,10 @@ from egsim.props.common import deep_tier
 from egsim.seams import InjectedFault
 from edgegraph.structure import singleton
 
-CLASS_NAMES = ["A", "A1", "B", "C", "D", "E", "F"]
+CLASS_NAMES = ["A", "A1", "B", "C", "D", "E", "F", "G", "G1", "H"]
+# classes whose metaclass is, or derives from, one generated metaclass object
+# share that object's registry (keyed by class)
+FAMILY = {"A": "a", "A1": "a", "B": "bc", "C": "bc", "D": "d", "E": "e", "F": "f", "G": "g", "G1": "g", "H": "g"}
 
 # argument pool, chosen to collide: -1/-2 (equal hashes, unequal values),
 # 1 / 1.0 / True (equal values), tuples built afresh on every use, strings
@@ -102,7 +111,15 @@ def make_classes(hook=None):
     m_f = singleton.semi_singleton_metaclass()
     # instances with their own (false) truth value
     F = m_f("F", (object,), body("F", __bool__=lambda self: False))
-    return {"A": A, "A1": A1, "B": B, "C": Cc, "D": D, "E": E, "F": F}
+    # a metaclass DERIVED from a generated one (mixed with ABCMeta, as a user
+    # who also wants abstract methods would write it), a subclass of such a
+    # class, and a class that uses the generated base metaclass directly
+    m_g = singleton.semi_singleton_metaclass()
+    meta_g = type("MetaG", (m_g, abc.ABCMeta), {})
+    G = meta_g("G", (object,), body("G"))
+    G1 = meta_g("G1", (G,), body("G1"))
+    H = m_g("H", (object,), body("H"))
+    return {"A": A, "A1": A1, "B": B, "C": Cc, "D": D, "E": E, "F": F, "G": G, "G1": G1, "H": H}
 
 
 def model_key(cls, args, kwargs):
@@ -130,6 +147,7 @@ class St:
         self.namer = gen.Namer()
         self.stats = collections.Counter()
         self.mutations = 0
+        self.gens = {}  # task label -> suspended get_all generator and what it owes
 
     def lab(self, obj):
         if obj is None:
@@ -170,8 +188,10 @@ class C17(engine.Property):
     }
     rule = (
         "one evaluation = one seeded history of constructions, add_mapping, drop, check, "
-        "get_all and clear over six related classes (own metaclass, subclass, shared "
-        "metaclass object, two custom hash functions) with colliding argument values, "
+        "get_all (also as a suspended generator resumed after work on other classes) and clear "
+        "over ten related classes (own metaclass, subclass, shared metaclass object, two custom "
+        "hash functions, falsy instances, a metaclass derived from a generated one with a "
+        "subclass and a sibling on the base metaclass) with colliding argument values, "
         "checked against a per-class key->instance model after every step, every live key "
         "of every class re-queried each step; distinct = distinct event-log digest; "
         "non-trivial = at least 3 registry changes"
@@ -205,6 +225,8 @@ class C17(engine.Property):
         "no-reference-held-construct-live-key",
         "keyword-value-equal-but-other-type",
         "dict-valued-keyword-in-other-insertion-order",
+        "derived-metaclass-class-cleared-then-constructed",
+        "suspended-get_all-resumed-after-work-on-other-classes",
     ]
 
     def make_config(self, rng):
@@ -232,7 +254,7 @@ class C17(engine.Property):
             "hold_refs": rng.random() < 0.65,
             "weights": gen.swarm_weights(
                 rng,
-                ["construct", "add_mapping", "drop", "check", "get_all", "clear"],
+                ["construct", "add_mapping", "drop", "check", "get_all", "clear", "gen_open", "gen_step"],
                 always=("construct",),
             ),
         }
@@ -337,12 +359,85 @@ class C17(engine.Property):
                 return {"op": "add_mapping", "obj": obj, "args": args, "kwargs": kwargs}
             if kind in ("get_all", "clear"):
                 return {"op": kind, "cls": cls}
+            if kind == "gen_open" and len(st.gens) < 3:
+                return {"op": "gen_open", "cls": cls, "t": st.namer.new("t")}
+            if kind == "gen_step" and st.gens:
+                return {"op": "gen_step", "t": rng.choice(sorted(st.gens)), "n": rng.choice([1, 1, 2, 99])}
         return None
 
     # -- execution -------------------------------------------------------------------------
+    def _touch(self, st, cls):
+        for g in st.gens.values():
+            if FAMILY[g["cls"]] == FAMILY[cls]:
+                g["touched"] = True
+
+    def _gen_op(self, st, op):
+        """
+        get_all_semi_singleton_instances is a lazy generator: a caller may be
+        half-way through one class's instances while it works with another
+        class.  As long as nothing was done to a class of the same registry
+        since it was opened, it must run to its end without an exception and
+        report exactly the instances that class has.
+        """
+        s = st.stats
+        if op["op"] == "gen_open":
+            if op["cls"] not in st.classes or op["t"] in st.gens:
+                return None, None
+            s["op:gen_open"] += 1
+            s["fault:task-spawned"] += 1
+            it = singleton.get_all_semi_singleton_instances(st.classes[op["cls"]])
+            st.gens[op["t"]] = {
+                "cls": op["cls"],
+                "it": it,
+                "want": sorted(set(st.model[op["cls"]].values())),
+                "got": [],
+                "touched": False,
+            }
+            return {"ret": "opened"}, None
+        g = st.gens.get(op["t"])
+        if g is None:
+            return None, None
+        s["op:gen_step"] += 1
+        s["fault:task-step"] += 1
+        if not g["touched"]:
+            s["probe:suspended-get_all-resumed-after-work-on-other-classes"] += 1
+        done = False
+        out = None
+        for _ in range(op.get("n", 1)):
+            try:
+                g["got"].append(st.lab(next(g["it"])))
+            except StopIteration:
+                done = True
+                break
+            except Exception as exc:  # pylint: disable=broad-except
+                del st.gens[op["t"]]
+                if g["touched"]:
+                    return {"exc": type(exc).__name__, "touched": True}, None
+                return {"exc": type(exc).__name__}, engine.viol(
+                    "C17/suspended-get_all-disturbed-by-another-registry",
+                    {"op": op, "class": g["cls"], "exc": type(exc).__name__, "got_so_far": g["got"]},
+                )
+        out = {"ret": list(g["got"]), "done": done, "touched": g["touched"]}
+        if done:
+            del st.gens[op["t"]]
+            if not g["touched"] and sorted(set(g["got"])) != g["want"]:
+                return out, engine.viol(
+                    "C17/suspended-get_all-reported-other-than-the-live-mappings",
+                    {"op": op, "class": g["cls"], "expected": g["want"], "got": sorted(set(g["got"]))},
+                )
+        return out, None
+
     def execute(self, st, op):
         k = op["op"]
         s = st.stats
+        if k in ("gen_open", "gen_step"):
+            return self._gen_op(st, op)
+        if k in ("construct", "drop", "clear") and op["cls"] in FAMILY:
+            self._touch(st, op["cls"])
+            if op.get("during") and op["during"]["cls"] in FAMILY:
+                self._touch(st, op["during"]["cls"])
+        if k == "add_mapping" and op["obj"] in st.inst_cls:
+            self._touch(st, st.inst_cls[op["obj"]])
         if k == "add_mapping":
             if op["obj"] not in st.inst or st.inst[op["obj"]] is None:
                 return None, None
@@ -519,6 +614,8 @@ class C17(engine.Property):
         elif k == "clear":
             if any(st.model[c] for c in st.cfg["classes"] if c != cls):
                 s["probe:clear-with-other-classes-live"] += 1
+            if cls in ("G", "G1"):
+                st.derived_cleared = True
             try:
                 singleton.clear_semi_singleton(klass)
                 out = {"ret": None}
@@ -595,8 +692,10 @@ class C17(engine.Property):
 
     def _probes_construct(self, st, cls, args, kwargs, key):
         s = st.stats
-        if cls in ("A1",):
+        if cls in ("A1", "G1"):
             s["probe:subclass-of-semi-singleton-constructed"] += 1
+        if cls in ("G", "G1") and getattr(st, "derived_cleared", False):
+            s["probe:derived-metaclass-class-cleared-then-constructed"] += 1
         if cls == "F":
             s["probe:falsy-instance-class-used"] += 1
         if cls in ("B", "C") and st.model["B" if cls == "C" else "C"]:
